@@ -164,6 +164,8 @@ struct Leaves {
     d: term::Dict,
     raw: Vec<[u8; 32]>,
     packed: Vec<packed::Byte32>,
+    /// root of the independently recomputed array tree
+    root: [u8; 32],
 }
 
 fn b32(x: &[u8; 32]) -> packed::Byte32 {
@@ -173,9 +175,9 @@ fn b32(x: &[u8; 32]) -> packed::Byte32 {
 fn mk_leaves(n: usize) -> Leaves {
     let mut d = term::Dict::new();
     let raw: Vec<[u8; 32]> = (0..n).map(|i| d.hb(&[(i & 0xff) as u8, (i >> 8) as u8])).collect();
-    d.cbmt(&raw);
+    let root = d.cbmt(&raw);
     let packed = raw.iter().map(b32).collect();
-    Leaves { d, raw, packed }
+    Leaves { d, raw, packed, root }
 }
 
 /// rank of leaf j's digest among the n leaf digests (`Byte32: Ord` = lexicographic bytes)
@@ -194,6 +196,9 @@ pub fn mpb_op(out: &mut Out, n: usize, idx: &[u32]) {
     let l = mk_leaves(n);
     let op = format!("mpb {} {} {}", n, list(&ranks(n)), list(idx));
     let mr = merkle_root(&l.packed);
+    if mr.as_slice() != &l.root[..] {
+        out.oracle_fail("proof-merkle-root", &format!("merkle_root differs from the recomputed array tree over {} leaves", n));
+    }
     let r = catch_unwind(AssertUnwindSafe(|| CkbCBMT::build_merkle_proof(&l.packed, idx)));
     match r {
         Err(_) => {
@@ -270,7 +275,9 @@ pub fn txv_op(out: &mut Out, n: usize, idx: &[u32], tamper: u64) {
     // block.calc_witnesses_root() / block.transactions_root()
     let witnesses_root = merkle_root(&wit_packed);
     let transactions_root = merkle_root(&[merkle_root(&l.packed), witnesses_root.clone()]);
-    debug_assert_eq!(witnesses_root.as_slice(), &wroot_raw[..]);
+    if witnesses_root.as_slice() != &wroot_raw[..] {
+        out.oracle_fail("proof-merkle-root", &format!("merkle_root over the witness hashes differs from the recomputed array tree: {}", op));
+    }
     let built = catch_unwind(AssertUnwindSafe(|| CkbCBMT::build_merkle_proof(&l.packed, idx)));
     let p = match built {
         Err(_) => {
